@@ -3,7 +3,7 @@
 # linkedBuffer / pendingData.moveToWithoutLock / Stream.readMore over a heap-backed bufferManager with
 # small size classes, compared op by op with the model (Corr/LinkedBufferCorr.v) + byte-queue oracle.
 import json, os, re
-from vlib import core, gen
+from vlib import core, gen, gosrc
 
 PROP = "C06"
 META = {
@@ -24,7 +24,7 @@ def scan_reuse():
         if <conjunction of the two known tests> { s.recvBuf, s.sendBuf = s.sendBuf, s.recvBuf }
     anything else is an unknown shape (broken correspondence)."""
     try:
-        src = open(os.path.join(core.REPO, "stream.go")).read()
+        src = gosrc.read("stream.go")
     except OSError as ex:
         return None, "cannot read stream.go: %s" % ex
     m = re.search(r"func \(s \*Stream\) ReleaseReadAndReuse\(\) \{(.*?)\n}\n", src, re.S)
